@@ -291,3 +291,21 @@ def check_missing_readonly(ck: Checker, m: "TransferModel", rule: str) -> None:
         if hit:
             ck.fail(rule, move, x, f"`{x.text()[:50]}` shrinks / rebinds the set of ids missing on both sides inside the per-directory loop: a later directory that lists the same missing file no longer sees it, uploads its .dir object and is reported as transferred", construct=f"{x.text()[:40]} / missing set read-only")
     ck.ok(rule, move, move.node, "the missing-on-both-sides set is not modified inside the per-directory loop", construct="missing_ids / read-only in loop")
+    # ... and neither is the directory's own listing: every later test ("a listed file failed earlier", "a listed file
+    # is missing on both sides") is about *all* entries of the directory, not about those still unclaimed
+    if m.entry_ids:
+        n_bad = 0
+        for x in g.nodes.values():
+            if m.head.id not in x.loops:
+                continue
+            a = x.ast
+            hit = x.kind == "stmt" and isinstance(a, ast.AugAssign) and isinstance(a.target, ast.Name) and a.target.id == m.entry_ids and isinstance(a.op, (ast.Sub, ast.BitAnd, ast.BitXor))
+            for c in calls_at(x):
+                if is_method_call(c, *MUT) and norm(c.func.value) == m.entry_ids:
+                    hit = True
+            if hit:
+                n_bad += 1
+                ck.fail(rule, move, x, f"`{x.text()[:50]}` shrinks the directory's own listing `{m.entry_ids}` before the tests that decide whether its .dir object may be sent: a listed file that failed under an earlier directory, or is missing on both sides, no longer blocks the directory object",
+                        construct=f"{x.text()[:40]} / listing read-only")
+        if not n_bad:
+            ck.ok(rule, move, move.node, "the directory's listing is not shrunk inside the per-directory loop", construct="entry_ids / read-only in loop")
